@@ -227,9 +227,128 @@ func fillValue(r *rand.Rand, v reflect.Value, depth int) {
 			v.Set(reflect.ValueOf(x))
 		}
 	case reflect.Struct:
+		if r.Intn(5) == 0 {
+			return // the zero struct (what omitzero looks at)
+		}
 		for i := 0; i < v.NumField(); i++ {
 			fillValue(r, v.Field(i), depth-1)
 		}
+	}
+}
+
+// a variant of a filled value: the same data except that, here and there, a nil slice or
+// map becomes an empty one or the other way round, a nil pointer a pointer to the zero
+// value, or a leaf changes
+func varyValue(r *rand.Rand, v reflect.Value, depth int) {
+	switch v.Kind() {
+	case reflect.Slice:
+		if v.Len() == 0 && r.Intn(2) == 0 {
+			if v.IsNil() {
+				v.Set(reflect.MakeSlice(v.Type(), 0, 0))
+			} else {
+				v.Set(reflect.Zero(v.Type()))
+			}
+			return
+		}
+		for i := 0; i < v.Len(); i++ {
+			varyValue(r, v.Index(i), depth-1)
+		}
+	case reflect.Map:
+		if v.Len() == 0 && r.Intn(2) == 0 {
+			if v.IsNil() {
+				v.Set(reflect.MakeMap(v.Type()))
+			} else {
+				v.Set(reflect.Zero(v.Type()))
+			}
+		}
+	case reflect.Ptr:
+		if !v.IsNil() {
+			varyValue(r, v.Elem(), depth-1)
+		}
+	case reflect.Struct:
+		for i := 0; i < v.NumField(); i++ {
+			varyValue(r, v.Field(i), depth-1)
+		}
+	case reflect.Interface:
+	default:
+		if r.Intn(8) == 0 {
+			fillValue(r, v, depth)
+		}
+	}
+}
+
+func deepCopyReflect(v reflect.Value) reflect.Value {
+	out := reflect.New(v.Type()).Elem()
+	switch v.Kind() {
+	case reflect.Slice:
+		if !v.IsNil() {
+			s := reflect.MakeSlice(v.Type(), v.Len(), v.Len())
+			for i := 0; i < v.Len(); i++ {
+				s.Index(i).Set(deepCopyReflect(v.Index(i)))
+			}
+			out.Set(s)
+		}
+	case reflect.Map:
+		if !v.IsNil() {
+			m := reflect.MakeMap(v.Type())
+			it := v.MapRange()
+			for it.Next() {
+				m.SetMapIndex(it.Key(), deepCopyReflect(it.Value()))
+			}
+			out.Set(m)
+		}
+	case reflect.Ptr:
+		if !v.IsNil() {
+			p := reflect.New(v.Type().Elem())
+			p.Elem().Set(deepCopyReflect(v.Elem()))
+			out.Set(p)
+		}
+	case reflect.Struct:
+		for i := 0; i < v.NumField(); i++ {
+			out.Field(i).Set(deepCopyReflect(v.Field(i)))
+		}
+	default:
+		out.Set(v)
+	}
+	return out
+}
+
+// pairs of reflected values of one generated Go type (inside the family): equality and
+// ordering on the reflected representation, with the generic views of both
+func emitReflectPairs(e *emitter, n int) {
+	for k := 0; k < n; k++ {
+		rt := genStructType(e.rng, 3, false)
+		pa := reflect.New(rt)
+		fillValue(e.rng, pa.Elem(), 4)
+		pb := reflect.New(rt)
+		if e.rng.Intn(3) == 0 {
+			fillValue(e.rng, pb.Elem(), 4)
+		} else {
+			pb.Elem().Set(deepCopyReflect(pa.Elem()))
+			varyValue(e.rng, pb.Elem(), 4)
+		}
+		func() {
+			defer func() { recover() }()
+			ra, err := value.NewValueReflect(pa.Interface())
+			if err != nil {
+				return
+			}
+			rb, err := value.NewValueReflect(pb.Interface())
+			if err != nil {
+				return
+			}
+			ua := normUnstructured(ra.Unstructured())
+			ub := normUnstructured(rb.Unstructured())
+			fa := value.NewFreelistAllocator()
+			eab := value.Equals(ra, rb) && value.EqualsUsing(fa, ra, rb)
+			eab2 := value.Equals(ra, rb) || value.EqualsUsing(fa, ra, rb)
+			if eab != eab2 {
+				e.line("(rpair-allocators-disagree)")
+				return
+			}
+			e.line(fmt.Sprintf("(rpair %s %s %s %s %d %d)", sexpValue(ua), sexpValue(ub), sexpBool(eab),
+				sexpBool(value.Equals(rb, ra)), value.Compare(ra, rb), value.Compare(rb, ra)))
+		}()
 	}
 }
 
@@ -370,6 +489,8 @@ func genC18(e *emitter, tier string) {
 		}()
 		e.line(fmt.Sprintf("(c18.view %s %s %s %s %s %s)", tS, vS, smd, jS, eq, cmp))
 	}
+	// equality and ordering between two reflected values against their generic views
+	emitReflectPairs(e, n/2)
 	// Set / Delete through the Map interface
 	genC18Mut(e, n/2)
 	// JSON and YAML round trips of generic values
